@@ -108,6 +108,23 @@ class VLoop(asyncio.BaseEventLoop):
         finally:
             events._set_running_loop(old)
 
+    def drive_cancelling(self, coro, after_io):
+        """Run one coroutine as a task and cancel it as soon as `after_io` transport calls have completed; returns the task (done)."""
+        old = events._get_running_loop()
+        events._set_running_loop(self)
+        try:
+            task = self.create_task(coro)
+            cancelled = False
+            while not task.done():
+                if not cancelled and self.io_choices >= after_io:
+                    task.cancel()
+                    cancelled = True
+                if not self._step():
+                    raise Deadlock('no runnable handle, no timer, no pending I/O while driving a task to its cancellation')
+            return task, cancelled
+        finally:
+            events._set_running_loop(old)
+
     def run1(self, coro):
         t = self.drive(coro)[0]
         return t.result()
